@@ -29,6 +29,13 @@ package termincommittee
 //@ pred IsMember(members []interfaces.CommitteeMember, id primitives.MemberId) = exists mi :: 0 <= mi && mi < len(members) && members[mi].Id == id
 //@ pred LeaderOf(members []interfaces.CommitteeMember, v primitives.View) = members[v % len(members)].Id
 //@ pred Signed(tic *TermInCommittee, hdr *protocol.BlockRef, snd *protocol.SenderSignature) = VerifiedMsg(tic.keyManager, hdr.BlockHeight(), hdr.Raw(), snd.MemberId(), snd.Signature())
+// a signed header is canonical when its bytes are the encoding of its own five fields (what proofs re-encode, A-MB-RT)
+//@ pred Canonical(hdr *protocol.BlockRef) = content(hdr.Raw()) == BlockRefBytes(hdr.MessageType(), hdr.InstanceId(), hdr.BlockHeight(), hdr.View(), content(hdr.BlockHash()))
+//@ func isCanonicalBlockRef
+//@   props C03 C08 C20
+//@   requires header != nil
+//@   ensures [iff-the-bytes-are-the-encoding-of-the-fields] result == Canonical(header)
+
 //@ pred TicOK(tic *TermInCommittee) = tic.State != nil && tic.messageFactory != nil && len(tic.committeeMembers) >= 4 && tic.storage != nil && tic.keyManager != nil && tic.blockUtils != nil && tic.electionTrigger != nil
 //@   | && SumMW(tic.committeeMembers, len(tic.committeeMembers)) < 2^64
 //@   | && tic.messageFactory.memberId == tic.myMemberId && tic.messageFactory.keyManager == tic.keyManager && SignsAs(tic.keyManager, tic.myMemberId)
@@ -54,18 +61,19 @@ package termincommittee
 // what every PREPARE in the log satisfies (C08); established at the store site, returned by the getters
 //@ pred PrepareOK(tic *TermInCommittee, pm *interfaces.PrepareMessage) = pm != nil && pm.content != nil
 //@   | && Signed(tic, pm.content.SignedHeader(), pm.content.Sender())
-//@   | && pm.content.SignedHeader().MessageType() == protocol.LEAN_HELIX_PREPARE
+//@   | && pm.content.SignedHeader().MessageType() == protocol.LEAN_HELIX_PREPARE && Canonical(pm.content.SignedHeader())
 //@   | && IsMember(tic.committeeMembers, pm.content.Sender().MemberId())
 //@   | && pm.content.Sender().MemberId() != LeaderOf(tic.committeeMembers, pm.content.SignedHeader().View())
 //@ pred CommitOK(tic *TermInCommittee, cm *interfaces.CommitMessage) = cm != nil && cm.content != nil
 //@   | && Signed(tic, cm.content.SignedHeader(), cm.content.Sender())
-//@   | && cm.content.SignedHeader().MessageType() == protocol.LEAN_HELIX_COMMIT
+//@   | && cm.content.SignedHeader().MessageType() == protocol.LEAN_HELIX_COMMIT && Canonical(cm.content.SignedHeader())
 //@   | && IsMember(tic.committeeMembers, cm.content.Sender().MemberId())
 
 // ---- Storage SPI (A-STORE) ----
 //@ iface interfaces.Storage.StorePrepare
 //@   requires [O8.2.verified] pp != nil && pp.content != nil && Signed(caller, pp.content.SignedHeader(), pp.content.Sender())
 //@   requires [O8.2.signed-type] pp.content.SignedHeader().MessageType() == protocol.LEAN_HELIX_PREPARE
+//@   requires [O3.canonical-header] Canonical(pp.content.SignedHeader())
 //@   requires [O8.2.member] IsMember(caller.committeeMembers, pp.content.Sender().MemberId())
 //@   requires [O8.2.not-from-leader] pp.content.Sender().MemberId() != LeaderOf(caller.committeeMembers, pp.content.SignedHeader().View())
 //@   requires [O8.2.height] pp.content.SignedHeader().BlockHeight() == caller.State.height
@@ -78,6 +86,7 @@ package termincommittee
 //@ iface interfaces.Storage.StoreCommit
 //@   requires [O8.3.verified] cm != nil && cm.content != nil && Signed(caller, cm.content.SignedHeader(), cm.content.Sender())
 //@   requires [O8.3.signed-type] cm.content.SignedHeader().MessageType() == protocol.LEAN_HELIX_COMMIT
+//@   requires [O3.canonical-header] Canonical(cm.content.SignedHeader())
 //@   requires [O8.3.member] IsMember(caller.committeeMembers, cm.content.Sender().MemberId())
 //@   requires [O8.3.height] cm.content.SignedHeader().BlockHeight() == caller.State.height
 //@   modifies ghost:cver
@@ -89,6 +98,7 @@ package termincommittee
 //@   requires [O8.1.height] ppm.content.SignedHeader().BlockHeight() == caller.State.height
 //@   requires [O8.1.verified] Signed(caller, ppm.content.SignedHeader(), ppm.content.Sender())
 //@   requires [O8.1.signed-type] ppm.content.SignedHeader().MessageType() == protocol.LEAN_HELIX_PREPREPARE
+//@   requires [O3.canonical-header] Canonical(ppm.content.SignedHeader())
 //@   requires [O8.1.from-leader] ppm.content.Sender().MemberId() == LeaderOf(caller.committeeMembers, ppm.content.SignedHeader().View())
 //@   requires [O8.1.current-view] ppm.content.SignedHeader().View() == caller.State.view
 //@   requires [O4.1.block-satisfies-hash] Commits(caller.blockUtils, ppm.content.SignedHeader().BlockHeight(), ppm.block, ppm.content.SignedHeader().BlockHash())
@@ -256,7 +266,7 @@ package termincommittee
 // satisfies the hash in its signed header (external validity is delegated to the consumer: A-SPI)
 //@ pred ProposalOK(tic *TermInCommittee, ppm *interfaces.PreprepareMessage) = ppm != nil && ppm.content != nil
 //@   | && Signed(tic, ppm.content.SignedHeader(), ppm.content.Sender())
-//@   | && ppm.content.SignedHeader().MessageType() == protocol.LEAN_HELIX_PREPREPARE
+//@   | && ppm.content.SignedHeader().MessageType() == protocol.LEAN_HELIX_PREPREPARE && Canonical(ppm.content.SignedHeader())
 //@   | && ppm.content.Sender().MemberId() == LeaderOf(tic.committeeMembers, ppm.content.SignedHeader().View())
 //@   | && ppm.content.SignedHeader().BlockHeight() == tic.State.height
 //@   | && Commits(tic.blockUtils, ppm.content.SignedHeader().BlockHeight(), ppm.block, ppm.content.SignedHeader().BlockHash())
@@ -277,6 +287,7 @@ package termincommittee
 //@   ensures [sound.not-yet-stored] result == nil ==> !ppStored[ppm.content.SignedHeader().View()]
 //@   ensures [sound.signed] result == nil ==> Signed(tic, ppm.content.SignedHeader(), ppm.content.Sender())
 //@   ensures [sound.signed-type] result == nil ==> ppm.content.SignedHeader().MessageType() == protocol.LEAN_HELIX_PREPREPARE
+//@   ensures [sound.canonical-header] result == nil ==> Canonical(ppm.content.SignedHeader())
 //@   ensures [sound.from-leader] result == nil ==> ppm.content.Sender().MemberId() == LeaderOf(tic.committeeMembers, ppm.content.SignedHeader().View())
 
 //@ func (*TermInCommittee).processPreprepare
